@@ -424,4 +424,56 @@ theorem createGraph_reads (ns : List (Str × Str)) (g : Str) (F : Nat) (hF : ns.
   · have := prologue_head ns ("CREATE GRAPH ".toList ++ ('<' :: g ++ ['>'])) 'C' _ rfl (by decide) (by decide)
     simpa [List.append_assoc] using this
 
+/-! ### a request: operations joined by `\n;\n` -/
+
+def sep : Str := ['\n', ';', '\n']
+
+theorem restOK_nil : RestOK [] := by intro c r h; cases h
+theorem restOK_sep (r : Str) : RestOK (sep ++ r) := by
+  intro c r' h
+  simp only [sep, List.cons_append, List.nil_append, List.cons.injEq] at h
+  rw [← h.1]; decide
+
+theorem ws_allws (t : Str) (h : AllWs t) : ws t = [] := by
+  have := ws_trail t [] h
+  simpa [ws, skip] using this
+
+theorem sym_trail_nil (c : Char) (t : Str) (h : AllWs t) : sym c t = none := by
+  simp [sym, ws_allws t h]
+
+theorem readOps_seq : ∀ (cs : List (Str × TUOp)) (n F : Nat), cs ≠ [] → (∀ c ∈ cs, OpText c.1 c.2 F) →
+    cs.length ≤ n → readOps n F (joinWith sep (cs.map (·.1))) = some (cs.map (·.2))
+  | [c], n, F, _, hc, hn => by
+    obtain ⟨m, rfl⟩ : ∃ m, n = m + 1 := ⟨n - 1, by simp at hn; omega⟩
+    obtain ⟨trail, htr, hr⟩ := (hc c (List.mem_cons_self ..)).reads
+    have := hr [] restOK_nil
+    simp only [List.append_nil] at this
+    simp only [List.map_cons, List.map_nil, joinWith, readOps, this, sym_trail_nil ';' trail htr]
+    simp [ws_allws trail htr]
+  | c :: c2 :: cs, n, F, _, hc, hn => by
+    obtain ⟨m, rfl⟩ : ∃ m, n = m + 1 := ⟨n - 1, by simp at hn; omega⟩
+    have ih := readOps_seq (c2 :: cs) m F (by simp) (fun x hx => hc x (List.mem_cons_of_mem _ hx))
+      (by simp at hn ⊢; omega)
+    obtain ⟨trail, htr, hr⟩ := (hc c (List.mem_cons_self ..)).reads
+    obtain ⟨h0, r0, hh, hnw, hnc⟩ := (hc c2 (List.mem_cons_of_mem _ (List.mem_cons_self ..))).head
+    have hJ : ∃ r1, joinWith sep ((c2 :: cs).map (·.1)) = h0 :: r1 := by
+      cases cs with
+      | nil => exact ⟨r0, by simp [joinWith, hh]⟩
+      | cons c3 cs => exact ⟨r0 ++ sep ++ joinWith sep ((c3 :: cs).map (·.1)), by simp [joinWith, hh]⟩
+    obtain ⟨r1, hr1⟩ := hJ
+    have htxt : joinWith sep ((c :: c2 :: cs).map (·.1)) =
+        c.1 ++ (sep ++ joinWith sep ((c2 :: cs).map (·.1))) := by simp [joinWith]
+    have h1 := hr (sep ++ joinWith sep ((c2 :: cs).map (·.1))) (restOK_sep _)
+    have hsym : sym ';' (trail ++ (sep ++ joinWith sep ((c2 :: cs).map (·.1)))) =
+        some ('\n' :: joinWith sep ((c2 :: cs).map (·.1))) := by
+      simp only [sym, ws_trail _ _ htr, sep, List.cons_append, List.nil_append, ws_nl,
+        ws_cons ';' _ (by decide) (by decide)]
+      simp
+    have hws : ws ('\n' :: joinWith sep ((c2 :: cs).map (·.1))) = joinWith sep ((c2 :: cs).map (·.1)) := by
+      rw [ws_nl, hr1, ws_cons h0 r1 hnw hnc]
+    rw [htxt]
+    simp only [readOps, h1, hsym, hws]
+    rw [hr1] at ih ⊢
+    simp only [reduceCtorEq, if_false, ih, List.map_cons, Option.map_some]
+
 end RV.C20
